@@ -6,9 +6,9 @@ open XmlRs Gen.Xml XmlRs.Names
 
 /-- a literal between two equal quotes where the grammar tries the DOUBLE quote first and reads the body with a
     production that depends on the quote -/
-theorem runs_two_quotes_dq {gD gS : G} {q : Char} (hq : isQuote q = true) {s Y : Str} {c : CST}
-    (h : Runs env (if q = '"' then gD else gS) (s ++ q :: Y) (.ok c (q :: Y))) :
-    Runs env (.alt [.seq [.tag ['"'], gD, .tag ['"']], .seq [.tag ['\''], gS, .tag ['\'']]]) (q :: (s ++ q :: Y))
+theorem runs_two_quotes_dq {ev : Env} {gD gS : G} {q : Char} (hq : isQuote q = true) {s Y : Str} {c : CST}
+    (h : Runs ev (if q = '"' then gD else gS) (s ++ q :: Y) (.ok c (q :: Y))) :
+    Runs ev (.alt [.seq [.tag ['"'], gD, .tag ['"']], .seq [.tag ['\''], gS, .tag ['\'']]]) (q :: (s ++ q :: Y))
       (.ok (.seq [.leaf [q], c, .leaf [q]]) Y) := by
   rcases isQuote_cases hq with rfl | rfl
   · simp only [if_true] at h
